@@ -20,6 +20,7 @@ import (
 type ProgSpec struct {
 	Users        []UserSpec `json:"users"`
 	LibFromTypes bool       `json:"lib_from_types,omitempty"` // the library package is created without syntax
+	BaseIndirect bool       `json:"base_indirect,omitempty"`  // with LibFromTypes: no IR package is created for package base at all (an indirect dependency); its methods are created on demand
 }
 
 type UserSpec struct {
@@ -30,7 +31,20 @@ type UserSpec struct {
 
 var stmtKinds = []string{"map", "sum", "box", "apply", "pair", "iface", "ptriface", "embiface", "bound", "thunk", "mexpr", "seq", "chain", "dep", "nested", "recur", "boxmethodval"}
 
+const baseSrc = `package base
+
+type B struct{ N int }
+
+func (b B) Name() string { return "base" }
+
+func (b *B) Inc() { b.N++ }
+
+func (b B) Twice() int { return b.N * 2 }
+`
+
 const libSrc = `package lib
+
+import "base"
 
 type Number interface{ ~int | ~int64 | ~float64 }
 
@@ -81,11 +95,7 @@ func Nest[T any](x T, n int) Box[T] {
 	return Box[T]{V: x}
 }
 
-type Base struct{ N int }
-
-func (b Base) Name() string { return "base" }
-
-func (b *Base) Inc() { b.N++ }
+type Base struct{ base.B }
 
 type Namer interface{ Name() string }
 
@@ -126,7 +136,7 @@ func zeroOf(elem string) string {
 	case "float64":
 		return "1.5"
 	case "lib.Base":
-		return "lib.Base{N: 1}"
+		return "lib.Base{}"
 	case "[]int":
 		return "[]int{1}"
 	}
@@ -134,7 +144,7 @@ func zeroOf(elem string) string {
 }
 
 func (ps *ProgSpec) sources() map[string]string {
-	out := map[string]string{"lib": libSrc}
+	out := map[string]string{"lib": libSrc, "base": baseSrc}
 	for i, u := range ps.Users {
 		var b strings.Builder
 		w := func(f string, a ...any) { fmt.Fprintf(&b, f, a...) }
@@ -231,7 +241,7 @@ type checked struct {
 func (ps *ProgSpec) typecheck() (*checked, error) {
 	src := ps.sources()
 	c := &checked{fset: token.NewFileSet(), pkgs: map[string]*types.Package{}, files: map[string][]*ast.File{}, infos: map[string]*types.Info{}}
-	c.order = []string{"lib"}
+	c.order = []string{"base", "lib"}
 	for i := range ps.Users {
 		c.order = append(c.order, fmt.Sprintf("u%d", i))
 	}
@@ -270,7 +280,8 @@ func genProg(r *genmod.Rng, tier string) ProgSpec {
 		n = 2 + r.N(12)
 	}
 	var ps ProgSpec
-	ps.LibFromTypes = r.P(200)
+	ps.LibFromTypes = r.P(300)
+	ps.BaseIndirect = r.P(600)
 	elems := []string{"int", "int", "string", "float64", "lib.Base", "[]int"}
 	common := elems[r.N(len(elems))]
 	for i := 0; i < n; i++ {
